@@ -5,6 +5,7 @@ import CCVerif.Lemmas.AnalysisParser
 import CCVerif.Lemmas.AnalysisFuelStab
 import CCVerif.Lemmas.ParserRangesLex
 import CCVerif.Lemmas.ParserShapeTop
+import CCVerif.Lemmas.EntryPoints
 import CCVerif.Properties.C03
 import CCVerif.Properties.C16
 import CCVerif.Properties.C17
@@ -644,5 +645,352 @@ example : (vcheck {} 5 (glob "X1" 0 2)).out = none ∧ (vcheck {} 5 (glob "X1" 0
     (vcheck {} 5 (glob "X1" 0 2)).errs = [(0x8840, 0)] ∧
     (vcheck {} 5 (lit 1 0 1)).out.isSome = true ∧ (vcheck {} 5 (lit 1 0 1)).errs = [] := by
   decide +kernel
+
+/-! ## 5. the composed entry points on byte strings (`Model/EntryPoints.lean`)
+
+`Parser::Parse(text, hint)`, `Auditor::CheckType(text, hint)` + `CheckValue()`, `Interpreter::Evaluate(text, hint)` and
+`ConvertTo(text, target)` as a user calls them: bytes in, verdict + error log out. The parser's own errors are modelled
+exactly: the bison automaton (tables regenerated from RSParserImpl.cpp) decides which tokens are pulled (so whether
+`unknownSymbol` is logged), which error production fires (`ParseEID`, at the start of the last token pulled), when
+`TupleDeclaration` / `SemanticCheck` fail (at a node's start) and when the `ParseEID::syntax` fallback is used. The theorems
+hold for EVERY outcome of that automaton (nothing is assumed about the tables). Status `gap` = the automaton and the
+recursive-descent tree model disagree / fuel / a faulting site of a model: outside what the model determines. -/
+section EntryPoints
+open CCVerif.Entry CCVerif.Convert
+
+private abbrev InText (n : Nat) : Int → Prop := fun p => 0 ≤ p ∧ p ≤ (n : Int)
+
+private theorem lex_tokInv (syn : Syn) (units : List Nat) (ts : List LTok) (h : lex syn units = some ts) :
+    TokInv (InText units.length) (InText units.length) ts := by
+  intro t ht
+  have := lex_positions_in_input syn units ts h t ht
+  exact ⟨⟨this.1, by omega⟩, ⟨by omega, this.2.2⟩⟩
+
+private theorem lex_some (syn : Syn) (units : List Nat) : ∃ ts, lex syn units = some ts := by
+  obtain ⟨rs, hr, _⟩ := lex_total syn units
+  exact ⟨rs.map RawTok.toTok, by simp [lex, hr]⟩
+
+/-- the facts of `parse_entry_faithful`, for reuse -/
+private theorem parse_entry_core (hint : Option Syn) (bytes : List Nat) (r : ParseRes) (h : parseEntry hint bytes = some r) :
+    r.syn = chooseSyntax hint bytes ∧ unitsOf r.syn bytes = some r.units ∧
+    ∃ ts, lex r.syn r.units = some ts ∧ StreamFacts (InText r.units.length) ts r := by
+  unfold parseEntry at h
+  simp only [] at h
+  split at h
+  · cases h
+  · rename_i units hu
+    obtain ⟨ts, hl⟩ := lex_some (chooseSyntax hint bytes) units
+    rw [hl] at h
+    simp only [Option.some.injEq] at h
+    subst h
+    obtain ⟨e1, e2⟩ := parseStream_syn_units (chooseSyntax hint bytes) units ts
+    rw [e1, e2]
+    exact ⟨rfl, hu, ts, hl, parseStream_facts _ _ (lex_tokInv _ _ ts hl) ⟨Int.le_refl 0, by omega⟩⟩
+
+/-- **parse_entry_faithful** (`Parser::Parse(text, hint)` on bytes, every hint, every byte string inside the lexer model —
+for MATH: well-formed UTF-8): the lexer is the one the hint / `EstimateSyntax` selects; success comes with an EMPTY log and
+the tree of `Parser.parse`; failure comes with at least one critical error (`unknownSymbol` of the lexer, a `ParseEID` of an
+error production / `TupleDeclaration` / `SemanticCheck`, or the `ParseEID::syntax` fallback) and `Parser.parse` rejects too;
+everything the parser logs is critical, and every logged position lies in `[0, length in units]`. -/
+theorem parse_entry_faithful (hint : Option Syn) (bytes : List Nat) (r : ParseRes) (h : parseEntry hint bytes = some r) :
+    r.syn = chooseSyntax hint bytes ∧ unitsOf r.syn bytes = some r.units ∧
+    (r.status = .ok → r.errors = [] ∧ r.tree = parse r.syn r.units ∧ (parse r.syn r.units).isSome = true) ∧
+    (r.status = .failed → (∃ e ∈ r.errors, isCritical e.1 = true) ∧ r.tree = none ∧ parse r.syn r.units = none) ∧
+    (∀ e ∈ r.errors, isCritical e.1 = true ∧ 0 ≤ e.2 ∧ e.2 ≤ r.units.length) := by
+  obtain ⟨h1, h2, ts, hl, hf⟩ := parse_entry_core hint bytes r h
+  have hp : parse r.syn r.units = parseToks ts := by simp [parse, hl]
+  refine ⟨h1, h2, ?_, ?_, ?_⟩
+  · intro hs; rw [hp]; exact hf.ok hs
+  · intro hs; rw [hp]; exact hf.failed hs
+  · intro e he; exact ⟨hf.critical e he, hf.pos e he⟩
+
+/-- **parse_entry_failure_iff_critical**: whenever the model determines the verdict (status not `gap`), `Parse` returns
+false if and only if the log holds a critical error. -/
+theorem parse_entry_failure_iff_critical (hint : Option Syn) (bytes : List Nat) (r : ParseRes)
+    (h : parseEntry hint bytes = some r) (hd : ∀ why, r.status ≠ .gap why) :
+    r.status = .failed ↔ ∃ e ∈ r.errors, isCritical e.1 = true := by
+  obtain ⟨_, _, hok, hfail, _⟩ := parse_entry_faithful hint bytes r h
+  constructor
+  · intro hs; exact (hfail hs).1
+  · rintro ⟨e, he, _⟩
+    cases hs : r.status with
+    | failed => rfl
+    | ok => rw [(hok hs).1] at he; cases he
+    | gap why => exact absurd hs (hd why)
+
+/-- **parse_entry_unknown_symbol**: an `unknownSymbol` entry of the log sits at the start of an INTERRUPT token of the
+stream (hence strictly inside the text, at an unknown symbol: `lex_first_error`). -/
+theorem parse_entry_unknown_symbol (syn : Syn) (units : List Nat) (ts : List LTok) (read : Nat) (hl : lex syn units = some ts) :
+    ∀ e ∈ lexErrs ts read, e.1 = eidUnknownSymbol ∧ ∃ t ∈ ts, t.id = .INTERRUPT ∧ e.2 = t.lo := by
+  intro e he
+  obtain ⟨a, _, b⟩ := lexErrs_inv (lex_tokInv syn units ts hl) read e he
+  exact ⟨a, b⟩
+
+/-- **check_entry_faithful** (`Auditor::CheckType(text, hint)`, then `CheckValue()` as a second call; every context in which
+the function names of the text are not LOGIC-typed — true of every `Schema`, and without it false:
+`typecheck_faithful_statement_false`): `CheckType` true ⇒ the log (parser + type auditor) holds no critical error; false ⇒ it
+holds one; the type auditor reaches no faulting site (a `gap` status is the parser model's); every position lies in the
+text. `CheckValue` runs exactly after a successful `CheckType`; true ⇒ it added nothing to the log; false ⇒ the log holds a
+critical error; positions in the text. -/
+theorem check_entry_faithful (Γ : Ctx) (hint : Option Syn) (bytes : List Nat) (r : CheckResE)
+    (h : checkEntry Γ hint bytes = some r)
+    (hΓ : ∀ ts, lex r.parse.syn r.parse.units = some ts → CCVerif.ParserShape.FuncsNotLogic Γ ts) :
+    parseEntry hint bytes = some r.parse ∧
+    (r.status = .ok → ∀ e ∈ r.errors, isCritical e.1 = false) ∧
+    (r.status = .failed → ∃ e ∈ r.errors, isCritical e.1 = true) ∧
+    (∀ why, r.status = .gap why → r.parse.status = .gap why) ∧
+    (∀ e ∈ r.errors, 0 ≤ e.2 ∧ e.2 ≤ r.parse.units.length) ∧
+    (r.vstatus.isSome = true ↔ r.status = .ok) ∧
+    (r.vstatus = some .ok → r.verrors = r.errors) ∧
+    (r.vstatus = some .failed → ∃ e ∈ r.verrors, isCritical e.1 = true) ∧
+    (∀ e ∈ r.verrors, 0 ≤ e.2 ∧ e.2 ≤ r.parse.units.length) := by
+  unfold checkEntry at h
+  split at h
+  · cases h
+  · rename_i p hp
+    obtain ⟨_, _, hok, hfail, hall⟩ := parse_entry_faithful hint bytes p hp
+    have hpos : ∀ e ∈ p.errors, 0 ≤ e.2 ∧ e.2 ≤ p.units.length := fun e he => (hall e he).2
+    split at h
+    · -- parsed
+      rename_i t hst htree
+      obtain ⟨herrs, htr, _⟩ := hok hst
+      have hparse : parse p.syn p.units = some t := by rw [← htr, htree]
+      simp only [] at h
+      split at h
+      · -- CheckType accepts
+        rename_i τ hout
+        simp only [Option.some.injEq] at h
+        subst h
+        simp only [herrs, List.nil_append] at *
+        have hacc := accept_no_critical Γ t τ hout
+        have hv := valuecheck_failure_faithful Γ (vfuel Γ t) t
+        have hvp := valuecheck_positions_in_input p.syn p.units Γ (vfuel Γ t) t hparse
+        have htp := typecheck_positions_in_input p.syn p.units Γ t hparse
+        refine ⟨hp, fun _ => hacc, by simp, by simp, htp, by simp, ?_, ?_, ?_⟩
+        · intro hvs
+          have : (vcheck Γ (vfuel Γ t) t).out.isSome = true := by
+            revert hvs
+            cases (vcheck Γ (vfuel Γ t) t).stuck <;> cases (vcheck Γ (vfuel Γ t) t).out <;> simp
+          rw [hv.1 this]; simp
+        · intro hvs
+          have h2 : (vcheck Γ (vfuel Γ t) t).out = none ∧ (vcheck Γ (vfuel Γ t) t).stuck = none := by
+            revert hvs
+            cases (vcheck Γ (vfuel Γ t) t).stuck <;> cases (vcheck Γ (vfuel Γ t) t).out <;> simp
+          obtain ⟨e, he, hc⟩ := hv.2 h2.1 h2.2
+          exact ⟨e, List.mem_append_right _ he, hc⟩
+        · intro e he
+          rcases List.mem_append.1 he with h1 | h1
+          · exact htp e h1
+          · exact hvp e h1
+      · -- CheckType rejects
+        rename_i hout
+        simp only [Option.some.injEq] at h
+        subst h
+        simp only [herrs, List.nil_append] at *
+        obtain ⟨e, he, hc⟩ := (parsed_typecheck_failure_iff_critical p.syn p.units Γ t hparse hΓ).1 hout
+        exact ⟨hp, by simp, fun _ => ⟨e, he, hc⟩, by simp, typecheck_positions_in_input p.syn p.units Γ t hparse,
+          by simp, by simp, by simp, by simp⟩
+      · -- a faulting site: excluded by `parsed_typecheck_total`
+        rename_i site hout
+        exact absurd hout (parsed_typecheck_total p.syn p.units Γ t hparse (by
+          simp only [Option.some.injEq] at h; subst h; exact hΓ) site)
+    · -- status ok without a tree: impossible
+      rename_i hst htree
+      obtain ⟨_, htr, hsome⟩ := hok hst
+      rw [← htr, htree] at hsome; cases hsome
+    · -- the parse did not succeed: its status and log are handed on
+      rename_i st tr hne1 hne2
+      simp only [Option.some.injEq] at h
+      subst h
+      refine ⟨hp, ?_, ?_, fun why hw => hw, hpos, ?_, by simp, by simp, by simp⟩
+      · intro hs; rw [(hok hs).1]; simp
+      · intro hs; exact (hfail hs).1
+      · constructor
+        · simp
+        · intro hs
+          obtain ⟨_, htr, hsome⟩ := hok hs
+          cases htree : p.tree with
+          | none => rw [← htr, htree] at hsome; cases hsome
+          | some t => exact absurd htree (hne1 t hs)
+
+/-- **eval_entry_faithful** (`Interpreter::Evaluate(text, hint)`, every context as above, every data context, every fuel of
+the evaluator model): a value is returned ⇒ the log holds no critical error; `nullopt` ⇒ the log holds a critical error —
+EXCEPT on the empty text, where the documented early return gives `nullopt` with an empty log; the type auditor reaches no
+faulting site; an evaluator error is the last entry of the log and is the result `ASTInterpreter::Evaluate` reports
+(`unknownError` is the evaluator model's fallback for a `false` without an error). -/
+theorem eval_entry_faithful (Γ : Ctx) (env : CCVerif.Eval.Env) (fuel : Nat) (hint : Option Syn) (bytes : List Nat) (r : EvalResE)
+    (h : evalEntry Γ env fuel hint bytes = some r)
+    (hΓ : ∀ p ts, parseEntry hint bytes = some p → lex p.syn p.units = some ts → CCVerif.ParserShape.FuncsNotLogic Γ ts) :
+    (r.emptyInput = true ↔ bytes = []) ∧
+    (r.emptyInput = true → r.status = .failed ∧ r.errors = []) ∧
+    (r.status = .ok → (∀ e ∈ r.errors, isCritical e.1 = false) ∧ ∃ v, r.value = some v ∧ ∀ eid pos, v ≠ .err eid pos) ∧
+    (r.status = .failed → r.emptyInput = false → ∃ e ∈ r.errors, isCritical e.1 = true) ∧
+    (∀ eid pos, r.value = some (.err eid pos) → r.status = .failed ∧ ∃ pre, r.errors = pre ++ [(eid, pos)] ∧
+      ∀ e ∈ pre, isCritical e.1 = false) := by
+  unfold evalEntry at h
+  split at h
+  · rename_i hemp
+    simp only [Option.some.injEq] at h
+    subst h
+    have : bytes = [] := by simpa using hemp
+    simp [this]
+  · rename_i hemp
+    have hne : bytes ≠ [] := by simpa using hemp
+    split at h
+    · cases h
+    · rename_i p hp
+      obtain ⟨_, _, hok, hfail, hall⟩ := parse_entry_faithful hint bytes p hp
+      split at h
+      · rename_i t hst htree
+        obtain ⟨herrs, htr, _⟩ := hok hst
+        have hparse : parse p.syn p.units = some t := by rw [← htr, htree]
+        simp only [] at h
+        split at h
+        · rename_i τ hout
+          have hacc := accept_no_critical Γ t τ hout
+          simp only [herrs, List.nil_append] at h
+          split at h
+          · simp only [Option.some.injEq] at h; subst h
+            exact ⟨by simp [hne], by simp, fun _ => ⟨hacc, _, rfl, by simp⟩, by simp, by simp⟩
+          · simp only [Option.some.injEq] at h; subst h
+            exact ⟨by simp [hne], by simp, fun _ => ⟨hacc, _, rfl, by simp⟩, by simp, by simp⟩
+          · rename_i eid pos _
+            split at h
+            · rename_i hc
+              simp only [Option.some.injEq] at h; subst h
+              refine ⟨by simp [hne], by simp, by simp, fun _ _ => ⟨(eid, pos), by simp, hc⟩, ?_⟩
+              intro e' p' hv
+              simp only [Option.some.injEq, CCVerif.Eval.EvalRes.err.injEq] at hv
+              obtain ⟨rfl, rfl⟩ := hv
+              exact ⟨rfl, _, rfl, hacc⟩
+            · simp only [Option.some.injEq] at h; subst h
+              exact ⟨by simp [hne], by simp, by simp, by simp, by simp⟩
+          · simp only [Option.some.injEq] at h; subst h
+            exact ⟨by simp [hne], by simp, by simp, by simp, by simp⟩
+          · simp only [Option.some.injEq] at h; subst h
+            exact ⟨by simp [hne], by simp, by simp, by simp, by simp⟩
+        · rename_i hout
+          simp only [Option.some.injEq] at h; subst h
+          simp only [herrs, List.nil_append]
+          obtain ⟨e, he, hc⟩ := (parsed_typecheck_failure_iff_critical p.syn p.units Γ t hparse (hΓ p · hp)).1 hout
+          exact ⟨by simp [hne], by simp, by simp, fun _ _ => ⟨e, he, hc⟩, by simp⟩
+        · rename_i site hout
+          exact absurd hout (parsed_typecheck_total p.syn p.units Γ t hparse (hΓ p · hp) site)
+      · rename_i hst htree
+        obtain ⟨_, htr, hsome⟩ := hok hst
+        rw [← htr, htree] at hsome; cases hsome
+      · rename_i st tr hne1 hne2
+        simp only [Option.some.injEq] at h; subst h
+        refine ⟨by simp [hne], by simp, ?_, fun hs _ => (hfail hs).1, by simp⟩
+        intro hs
+        obtain ⟨_, htr, hsome⟩ := hok hs
+        cases htree : p.tree with
+        | none => rw [← htr, htree] at hsome; cases hsome
+        | some t => exact absurd htree (hne1 t hs)
+
+/-- **convert_entry_total_partial** (`ConvertTo(text, target)`, every byte string, both targets): outside the model exactly when the
+text is not in the lexer model of the OPPOSITE syntax (MATH source, ill-formed UTF-8); a text the opposite parser rejects
+comes back unchanged, byte for byte; a text it accepts comes back as the printed tree — or the printer model reaches an
+unchecked access (`stuck`). That the last case never happens on parsed trees is the missing part of
+`convert_entry_total_statement`. -/
+theorem convert_entry_total_partial (target : Syn) (input : List Nat) :
+    (convertEntry target input = .outside ↔ unitsOf (other target) input = none) ∧
+    (∀ units, unitsOf (other target) input = some units → parse (other target) units = none →
+      convertEntry target input = .text input) ∧
+    (∀ units t, unitsOf (other target) input = some units → parse (other target) units = some t →
+      (∃ out, CCVerif.Printer.print target t = some out ∧ convertEntry target input = .text (bytesOf out)) ∨
+      (CCVerif.Printer.print target t = none ∧ convertEntry target input = .stuck)) := by
+  unfold convertEntry convertTo parseBytes chooseSyntax
+  simp only []
+  cases hu : unitsOf (other target) input with
+  | none => simp
+  | some units =>
+    refine ⟨?_, ?_, ?_⟩
+    · simp only [Option.map_some]
+      cases parse (other target) units with
+      | none => simp
+      | some t => simp only []; split <;> simp
+    · intro u hu' hp
+      cases hu'
+      simp [hp]
+    · intro u t hu' hp
+      cases hu'
+      simp only [Option.map_some, hp]
+      cases hpr : CCVerif.Printer.print target t with
+      | none => exact Or.inr ⟨rfl, rfl⟩
+      | some out => exact Or.inl ⟨out, rfl, rfl⟩
+
+/-- the full demand on `ConvertTo`: as `convert_entry_total_partial`, and the printer never reaches an unchecked access on a
+tree the parser returns. NOT proved: needs an induction over `GeneratorImplAST` (Model/Printer.lean) along the shape
+`Checker.WfParsed` of parsed trees; observed by the `c05 convert` correspondence runs (model never `stuck`). -/
+def convert_entry_total_statement : Prop :=
+  ∀ (target : Syn) (input : List Nat),
+    (convertEntry target input = .outside ↔ unitsOf (other target) input = none) ∧
+    (∀ units, unitsOf (other target) input = some units → parse (other target) units = none →
+      convertEntry target input = .text input) ∧
+    (∀ units t, unitsOf (other target) input = some units → parse (other target) units = some t →
+      ∃ out, CCVerif.Printer.print target t = some out ∧ convertEntry target input = .text (bytesOf out))
+
+/-- **convert_unchanged_not_only_on_failure_counterexample**: "returns the input unchanged IFF the parse fails" is false as
+an equivalence: `X1` parses in ASCII and is printed as `X1` in MATH. -/
+theorem convert_unchanged_not_only_on_failure_counterexample :
+    convertEntry .math [88, 49] = .text [88, 49] ∧ (parse .ascii [88, 49]).isSome = true := by
+  decide +kernel
+
+/-! ### non-vacuity of the entry-point theorems (ASCII-only texts: bytes = code points; hint UNDEF unless stated) -/
+
+/-- an accepted text: `1+1` parses (MATH by estimate: `+` hints MATH), checks, evaluates to 2 with an empty log -/
+example : (parseEntry none (units "1+1")).map (fun r => ((match r.syn with | .math => true | .ascii => false), r.status, r.errors, r.tree.isSome)) =
+    some (true, .ok, [], true) := by decide +kernel
+example : (checkEntry CCVerif.C03.ctxK none (units "1+1")).map (fun r => (r.status, r.errors, r.vstatus, r.verrors)) =
+    some (.ok, [], some .ok, []) := by decide +kernel
+example : (evalEntry CCVerif.C03.ctxK {} 100 none (units "1+1")).map
+    (fun r => (r.status, r.errors, match r.value with | some (.ok (.e 2)) => true | _ => false)) = some (.ok, [], true) := by
+  decide +kernel
+
+/-- a lexer failure: `a @b` — `unknownSymbol` (0x8203) at 2, nothing else (the automaton pulls the INTERRUPT token as end of
+input and accepts `a`; `countCriticalErrors ≠ 0`, no fallback) -/
+example : (parseEntry none (units "a @b")).map (fun r => (r.status, r.errors)) = some (.failed, [(0x8203, 2)]) := by
+  decide +kernel
+
+/-- parser failures: `(X1` — no error production applies, the `ParseEID::syntax` fallback (0x8400) at END = 3;
+`D{a∈X1 | 1=1` — the error production `RCE: error`, `missingCurlyBrace` (0x8407) at END = 12;
+`∀(a,1)∈X1 1=1` (MATH) — `TupleDeclaration`, `expectedLocal` (0x8415) at the start of `1`;
+`a:=1` — `SemanticCheck`, `invalidImperative` (0x8409) at 0; `∀ @` — the lexer's error AND `invalidQuantifier` (0x8408), both at 2 -/
+example : (parseEntry none (units "(X1")).map (fun r => (r.status, r.errors)) = some (.failed, [(0x8400, 3)]) := by decide +kernel
+example : (parseEntry none ((units "D{a") ++ [0xE2, 0x88, 0x88] ++ units "X1 | 1=1")).map (fun r => (r.status, r.errors)) =
+    some (.failed, [(0x8407, 12)]) := by decide +kernel
+example : (parseEntry (some .math) ([0xE2, 0x88, 0x80] ++ units "(a,1)" ++ [0xE2, 0x88, 0x88] ++ units "X1 1=1")).map
+    (fun r => (r.status, r.errors)) = some (.failed, [(0x8415, 4)]) := by decide +kernel
+example : (parseEntry none (units "a:=1")).map (fun r => (r.status, r.errors)) = some (.failed, [(0x8409, 0)]) := by decide +kernel
+example : (parseEntry (some .math) ([0xE2, 0x88, 0x80] ++ units " @")).map (fun r => (r.status, r.errors)) =
+    some (.failed, [(0x8203, 2), (0x8408, 2)]) := by decide +kernel
+
+/-- a type error: `red(X1)` in C03's context — parsed, `CheckType` false with `invalidReduce` (0x8810) at 5, `CheckValue` not
+run; and the hypothesis of `check_entry_faithful` holds there. `X1` alone: `CheckType` true, `CheckValue` false with
+`globalNoValue` (0x8840) -/
+example : (checkEntry CCVerif.C03.ctxK none (units "red(X1)")).map (fun r => (r.status, r.errors, r.vstatus)) =
+      some (.failed, [(0x8810, 5)], none) ∧
+    (∀ ts, lex .ascii (units "red(X1)") = some ts → CCVerif.ParserShape.FuncsNotLogic CCVerif.C03.ctxK ts) ∧
+    (checkEntry CCVerif.C03.ctxK none (units "X1")).map (fun r => (r.status, r.errors, r.vstatus, r.verrors)) =
+      some (.ok, [], some .failed, [(0x8840, 0)]) :=
+  ⟨by decide +kernel, CCVerif.ParserShape.funcsNotLogic_of_check (by decide +kernel), by decide +kernel⟩
+
+/-- an evaluation error: `debool({1,2})` — accepted by parser and type auditor, `invalidDebool` (0x8A05) from the evaluator;
+`X1` without data — `globalMissingValue` (0x8A03) from the name collection; the empty text — `nullopt`, empty log -/
+example : (evalEntry CCVerif.C03.ctxK {} 100 none (units "debool({1,2})")).map (fun r => (r.status, r.errors)) =
+      some (.failed, [(0x8A05, 0)]) ∧
+    (evalEntry CCVerif.C03.ctxK {} 100 none (units "X1")).map (fun r => (r.status, r.errors)) = some (.failed, [(0x8A03, 0)]) ∧
+    (evalEntry CCVerif.C03.ctxK {} 100 none []).map (fun r => (r.status, r.errors, r.emptyInput)) = some (.failed, [], true) := by
+  decide +kernel
+
+/-- conversion: a rejected text comes back unchanged; an accepted one is printed in the target syntax (`a \in X1` → `a∈X1`);
+a MATH source that is not UTF-8 is outside the model -/
+example : convertEntry .ascii (units "X1 )") = .text (units "X1 )") ∧
+    convertEntry .math (units "a \\in X1") = .text (units "a" ++ [0xE2, 0x88, 0x88] ++ units "X1") ∧
+    convertEntry .ascii [0xFF] = .outside := by
+  decide +kernel
+
+end EntryPoints
 
 end CCVerif.C04
